@@ -26,8 +26,92 @@ func reloadPayload(a, p int, cfg bool, period, stay, th int64) int64 {
 	return t
 }
 
+var multiCmds = []string{"CLOSE", "FINISH", "PASS"}
+
+func toSpecs(v hv.Val) []mod_prison.VerifRuleSpec {
+	var out []mod_prison.VerifRuleSpec
+	for _, rv := range hv.AsList(v) {
+		x := hv.AsList(rv)
+		out = append(out, mod_prison.VerifRuleSpec{CheckPeriodS: hv.AsInt(x[0]) * unitS, StayPeriodS: hv.AsInt(x[1]) * unitS,
+			Threshold: int32(hv.AsInt(x[2])), Match: hv.AsInt(x[3]) != 0, Cmd: multiCmds[hv.AsInt(x[4])]})
+	}
+	return out
+}
+
+// several overlapping rules: [-7, global rules, product rules, ops] => [[code, checked, prison] per request]
+func implMulti(l []hv.Val) hv.Val {
+	m := mod_prison.VerifNewModule(toSpecs(l[1]), toSpecs(l[2]))
+	out := hv.L{}
+	var now int64
+	first := true
+	for _, ov := range hv.AsList(l[3]) {
+		o := hv.AsList(ov)
+		t := hv.AsInt(o[1])
+		if !first {
+			m.Advance((t - now) * unit)
+		}
+		first = false
+		now = t
+		code, c, p := m.Request(int(hv.AsInt(o[0])))
+		out = append(out, hv.L{hv.I(code), hv.Z(c), hv.Z(p)})
+	}
+	return out
+}
+
+func genMulti(r *hv.Rng) (string, hv.Val) {
+	class := "multi"
+	mkRules := func(n int, strictFirst bool) hv.L {
+		l := hv.L{}
+		ths := []int{r.Range(0, 1), r.Range(1, 3), r.Range(2, 5)} // strict ... lax
+		for j := 0; j < n; j++ {
+			th := ths[j%3]
+			if !strictFirst {
+				th = ths[(n-1-j)%3]
+			}
+			match := 1
+			if r.Chance(1, 6) {
+				match = 0
+			}
+			cmd := pickI(r, 0, 0, 0, 1, 2)
+			l = append(l, hv.L{hv.Z(int64(2*r.Range(0, 4) + 1)), hv.Z(int64(2 * r.Range(1, 5))), hv.I(th), hv.I(match), hv.I(cmd)})
+		}
+		return l
+	}
+	strictFirst := r.Chance(1, 2)
+	if strictFirst {
+		class = "multi-strict-first"
+	} else {
+		class = "multi-lax-first"
+	}
+	g := mkRules(r.Intn(3), strictFirst)
+	p := mkRules(r.Range(1, 3), strictFirst)
+	if len(g)+len(p) < 2 {
+		p = mkRules(2, strictFirst)
+	}
+	nkeys := r.Range(1, 3)
+	ops := hv.L{}
+	t := int64(0)
+	for n := r.Range(4, 40); n > 0; n-- {
+		switch r.Intn(6) {
+		case 0:
+			t += 2
+		case 1:
+			t += 2 * int64(r.Range(1, 8))
+		}
+		k := int64(r.Intn(nkeys))
+		if r.Chance(1, 40) {
+			k = -1
+		}
+		ops = append(ops, hv.L{hv.Z(k), hv.Z(t)})
+	}
+	return class, hv.L{hv.Z(-7), g, p, ops}
+}
+
 func impl(in hv.Val) hv.Val {
 	l := hv.AsList(in)
+	if hv.AsInt(l[0]) == -7 {
+		return implMulti(l)
+	}
 	period, stay, th := hv.AsInt(l[0]), hv.AsInt(l[1]), hv.AsInt(l[2])
 	p := mod_prison.VerifNewPrison(period*unitS, stay*unitS, int32(th), int(hv.AsInt(l[3])), int(hv.AsInt(l[4])))
 	out := hv.L{}
@@ -117,6 +201,9 @@ func genReload(r *hv.Rng) (string, hv.Val) {
 func gen(r *hv.Rng, i int, tier string) (string, hv.Val) {
 	if r.Chance(1, 6) {
 		return genReload(r)
+	}
+	if r.Chance(1, 5) {
+		return genMulti(r)
 	}
 	period := int64(2*r.Range(0, 6) + 1) // odd number of units
 	stay := int64(2 * r.Range(0, 5))     // even
